@@ -242,7 +242,8 @@ func (e *Env) tr(x Expr) Term {
 			name := "q_" + v.Name
 			bs = append(bs, fmt.Sprintf("(%s %s)", name, sort))
 			n.vars[v.Name] = Term{S: name, Sort: sort, T: t}
-			if t != nil && v.Type != "int" {
+			if t != nil && v.Type != "int" && sort == "Int" {
+				// (no nested quantifiers: well-formedness of bound strings is not assumed)
 				if inv := vc.ss().typeInv(t, name, 0); inv != "true" {
 					guards = append(guards, inv)
 				}
@@ -670,6 +671,14 @@ func (e *Env) call(x *ECall) Term {
 		return Term{S: sx("select", vc.get(e.st, "G_$arg0_"+mangle(sort), "(Array Int "+sort+")"), a.S), Sort: sort, T: pt}
 	case "val":
 		return e.value(e.tr(x.Args[0]))
+	case "max", "min":
+		a := e.tr(x.Args[0])
+		b := e.tr(x.Args[1])
+		op := ">="
+		if x.Fun == "min" {
+			op = "<="
+		}
+		return Term{S: sx("ite", sx(op, a.S, b.S), a.S, b.S), Sort: "Int"}
 	case "toInt":
 		a := e.tr(x.Args[0])
 		return Term{S: a.S, Sort: a.Sort}
